@@ -7,6 +7,16 @@ ALL = ["C%02d" % i for i in range(1, 18)]
 
 # id -> (category, technique, text, note, design_ref)
 CHECKS = {
+    "C01": ("exploration",
+            "differential testing against an instruction-level reference model: proptest-generated single instructions and lock-step programs, exhaustive operand sweeps of the ALU/unary groups",
+            "Every defined first byte and defined second byte is executed from generated register/RAM/input states (boundary-biased, PC and operands in the I/O page included) and compared at the next instruction boundary with an independent instruction-level model (R0-R3, FR, SP, all RAM, FE/FF, halt outcome); the reg-reg ALU group incl. MUL/DIV is swept over all 65 536 operand pairs x carry-in (quick: two register pairs + one PC-involving pair, thorough: all 16 pairs with PC swept over every opcode position), the unary group over 256 values x 16 flag patterns x 4 registers; generated programs run up to 250 instructions in lock-step without re-synchronisation, steps taken in either step mode. Sampling, not proof, outside the swept groups.",
+            "Trusted: harness/src/isa.rs as the documented instruction set (DESIGN.md Appendix A). Limits set to stack size 0 / program size 255; supervision is C05's subject. Undefined second bytes end a sequence (behaviour unspecified).",
+            "DESIGN.md §4 C01"),
+    "C15": ("exploration",
+            "differential testing of clock-edge counts against a documented per-form control-word table plus one wait per RAM access (same generators as C01, exhaustive MUL/DIV operand sweep)",
+            "For every executed instruction of C01's three generators the number of raw clock edges between two boundaries must equal the documented control-word count of the form/addressing mode (data-dependent for JR, MUL, DIV) plus one wait for each model access to an address <= 0xEF and none for I/O addresses; MUL/DIV are swept over all operand pairs.",
+            "Trusted: the step-count table `steps()` in harness/src/isa.rs (DESIGN.md Appendix A). Counts are only taken for steps issued as raw edges; step-mode independence of the count is C11's equivalence.",
+            "DESIGN.md §4 C15"),
     "C08": ("exploration",
             "exhaustive enumeration against a documented function table (differential oracle)",
             "All 2 097 152 ALU input points are enumerated in both tiers and compared (result, carry, zero, negative) with a function table written from the documentation in 16-bit arithmetic; any single-entry deviation of the ALU is detected.",
